@@ -638,8 +638,12 @@ func ntskeRequest() []byte {
 }
 
 func (e *netEnv) keExchange(stream []byte, wantCookies bool) bool {
+	return e.keExchangeTo(e.srvIP, stream, wantCookies)
+}
+
+func (e *netEnv) keExchangeTo(ip net.IP, stream []byte, wantCookies bool) bool {
 	d := &net.Dialer{Timeout: 10 * time.Second, LocalAddr: &net.TCPAddr{IP: e.peerIP}}
-	conn, err := tls.DialWithDialer(d, "tcp", net.JoinHostPort(e.srvIP.String(), "4460"),
+	conn, err := tls.DialWithDialer(d, "tcp", net.JoinHostPort(ip.String(), "4460"),
 		&tls.Config{InsecureSkipVerify: true, NextProtos: []string{"ntske/1"}, MinVersion: tls.VersionTLS13})
 	if err != nil {
 		note("ntske dial: " + err.Error())
@@ -787,7 +791,7 @@ func sentinelLost(kind, outs string) bool {
 
 func runNet1(j job) (string, bool) {
 	switch j.kind {
-	case "srv.ip", "srv.scion", "srv.scionnts", "srv.scionauth", "srv.scmp", "srv.csptp", "srv.ntske", "srv.kestall", "srv.quic", "srv.quicke", "cli.scionnts", "cli.overlap", "cli.ipopt", "cli.kestall", "cli.kestallquic", "srv.scionnodaemon", "srv.dispatcher", "srv.ip6", "cli.ip6", "cli.ip", "cli.nts", "cli.scion", "cli.csptp":
+	case "srv.ip", "srv.scion", "srv.scionnts", "srv.scionauth", "srv.scmp", "srv.csptp", "srv.ntske", "srv.kestall", "srv.quic", "srv.quicke", "cli.scionnts", "cli.overlap", "cli.ipopt", "cli.kestall", "cli.kestallquic", "srv.scionnodaemon", "srv.dispatcher", "srv.kefd", "srv.scionpar", "srv.ip6", "cli.ip6", "cli.ip", "cli.nts", "cli.scion", "cli.csptp":
 	default:
 		return "", false
 	}
@@ -806,6 +810,10 @@ func runNet1(j job) (string, bool) {
 		return e.runIP6(a), true
 	case "srv.dispatcher":
 		return e.runDispatcher(a), true
+	case "srv.kefd":
+		return e.runKEFD(a), true
+	case "srv.scionpar":
+		return e.runSCIONPar(a), true
 	case "srv.csptp":
 		return e.runCSPTPServer(a), true
 	case "srv.ntske":
